@@ -14,7 +14,7 @@ Import Strings.String.StringSyntax.
 Delimit Scope string_scope with string.
 From Falco Require Import Base.Res Base.Bytes Model.StoreSyntax Model.Store Model.StoreOps
   Proofs.StoreHeap Proofs.StoreInv Proofs.StoreMain Proofs.StoreFrame Proofs.StoreWitness
-  Gen.StoreEffects Model.StoreBuiltinNames Proofs.StoreEffectsTie.
+  Gen.StoreEffects Gen.StoreWritable Model.StoreBuiltinNames Proofs.StoreEffectsTie.
 Import ListNotations.
 
 (* Evaluating an expression built from variables, literals, operators and side-effect-free
@@ -223,6 +223,20 @@ Theorem C13_silent_statement_kinds :
   forall k, In k silent_kinds -> lookup_eff k statement_effects = Some [].
 Proof. exact silent_kinds_tie. Qed.
 
+(* [wf] for the ctx variables, from the source: within what one scope can write (its own cases of
+   interpreter/variable/<scope>.go and the all-scope ones it falls back to) distinct names are
+   assigned into distinct context fields.  gen/storegen.py draws its ctx variables from this table. *)
+Theorem C13_writable_cells_distinct :
+  forall sc, In sc scopes ->
+    NoDup (map fst (scope_cells sc)) /\ NoDup (map snd (scope_cells sc)).
+Proof. exact writable_cells_distinct. Qed.
+
+Theorem C13_writable_example :
+  In ("req.hash_always_miss", "HashAlwaysMiss")%string (scope_cells "recv") /\
+  In ("req.max_stale_if_error", "MaxStaleIfError")%string (scope_cells "recv") /\
+  In ("obj.response", "ObjectResponse")%string (scope_cells "error").
+Proof. exact writable_example. Qed.
+
 (* witnesses: the analysis distinguishes writers *)
 Theorem C13_header_set_effects_example :
   effects_of "header.set"%string = Some header_maps /\ ~ effect_free "header.set"%string.
@@ -259,3 +273,5 @@ Print Assumptions C13_match_implicit.
 Print Assumptions C13_set_implicit.
 Print Assumptions C13_silent_statement_kinds.
 Print Assumptions C13_header_set_effects_example.
+Print Assumptions C13_writable_cells_distinct.
+Print Assumptions C13_writable_example.
